@@ -246,6 +246,9 @@ HEADER = ("(* GENERATED on every run by vlib/translate.py from the current sourc
 #            a listed `try: <operation> / except E: raise X` (or any statement with exactly two ways on): a boolean
 #            parameter decides; true: constructor_exit is appended and the path ends; false: constructor_go is appended
 #            and the body goes on (`try: .. = heappop(self._queue) / except IndexError: raise EmptySchedule()`)
+#   local_state  the state record holds loop-carried LOCALS (idx) instead of fields of self; with select="before_loop" the
+#            statements before the method's only top-level while are translated (the initial record), with select="loop"
+#            the while itself: one evaluation of its test, then the body (loop_again) or what follows the loop
 #   loop_again  constructor: a top-level `while True:` is translated as ONE iteration: `break` goes on with what follows
 #            the loop; reaching the end of the body appends the constructor and ends the path (the next iteration is
 #            the same body again, on the values the effects left behind)
@@ -362,12 +365,13 @@ class _EndLoop(ast.stmt):
 class FnSpec:
     def __init__(self, path, cls, method, name, reads=(), effects=(), draws=(), ret="unit", ignore_calls=("print", "dprint"),
                  select=None, stateops=(), bindings=(), inline=(), ignore_stmts=(), aliases=(), guards=(), decorator=None,
-                 raising=(), switches=(), loop_again=None):
+                 raising=(), switches=(), loop_again=None, local_state=False):
         self.path, self.cls, self.method, self.name, self.select = path, cls, method, name, select
         self.stateops, self.bindings, self.inline = list(stateops), list(bindings), list(inline)
         self.ignore_stmts, self.aliases = list(ignore_stmts), list(aliases)
         self.guards, self.decorator = list(guards), decorator
         self.raising, self.switches, self.loop_again = list(raising), list(switches), loop_again
+        self.local_state = local_state
         self.reads = [tuple(r) + (("",) if len(r) == 3 else ()) for r in reads]
         self.effects = [tuple(e) + (((),) if len(e) == 3 else ()) for e in effects]
         self.draws, self.ret, self.ignore_calls = list(draws), ret, set(ignore_calls)
@@ -401,7 +405,8 @@ class FxTr:
     # ---- environment: vars (name -> V), fx (base variable | None, [terms]), known (param -> None | narrowed name),
     #      stale (volatile params an effect may have changed), drawn (parameters already consumed)
     def env0(self):
-        vs = {("self", a): V(f"({self.prefix}{a.lstrip('_')} s)", ty) for a, ty in self.state}
+        kind = "local" if self.spec.local_state else "self"      # local_state: the record holds loop-carried LOCALS
+        vs = {(kind, a): V(f"({self.prefix}{a.lstrip('_')} s)", ty) for a, ty in self.state}
         return {"vars": vs, "fx": (None, []), "known": {}, "stale": set(), "drawn": set(), "done": set(), "ctl": (None, None)}
 
     @staticmethod
@@ -665,7 +670,8 @@ class FxTr:
     def final(self, env, ret):
         parts = []
         if self.state:
-            parts.append("{| " + "; ".join(f"{self.prefix}{a.lstrip('_')} := {env['vars'][('self', a)].term}" for a, _ in self.state) + " |}")
+            kind = "local" if self.spec.local_state else "self"
+            parts.append("{| " + "; ".join(f"{self.prefix}{a.lstrip('_')} := {env['vars'][(kind, a)].term}" for a, _ in self.state) + " |}")
         parts.append(self.fx_term(env["fx"]))
         if self.spec.ret == "bool":
             parts.append(ret)
@@ -757,13 +763,21 @@ class FxTr:
             env2["ctl"] = ((s.handlers, rest, env["ctl"][0]), env["ctl"][1])
             return self.block(list(s.body) + [_EndTry(env["ctl"][0])] + rest, env2, k)
         if isinstance(s, ast.While):
-            if not (self.spec.loop_again and isinstance(s.test, ast.Constant) and s.test.value is True and not s.orelse):
-                raise Unsupported("while (only `while True:` with loop_again declared: ONE iteration is translated)")
+            if not (self.spec.loop_again and not s.orelse):
+                raise Unsupported("while (only with loop_again declared: ONE iteration is translated)")
             if env["ctl"][1] is not None:
                 raise Unsupported("nested while")
             env2 = self.copy(env)
             env2["ctl"] = (env["ctl"][0], (rest, k))
-            return self.block(list(s.body) + [_EndLoop()], env2, k)
+            if isinstance(s.test, ast.Constant) and s.test.value is True:
+                return self.block(list(s.body) + [_EndLoop()], env2, k)
+            # `while <test>:` -- one evaluation of the test: true, the body (then again); false, what follows the loop
+            c = self.cond(s.test, env)
+            saved = dict(self.counters)
+            a = self.block(list(s.body) + [_EndLoop()], env2, k)
+            self.counters = dict(saved)
+            b = self.block(rest, env, k)
+            return f"(if {c}\n then " + _ind(a, 6) + "\n else " + _ind(b, 6) + ")"
         if isinstance(s, _EndLoop):                      # the body ran to its end: the next iteration is the same body again
             env2 = self.copy(env)
             env2["fx"][1].append(self.spec.loop_again)
@@ -1104,6 +1118,14 @@ def translate_fn(spec, state, record, prefix, effect_type):
         stmts = list(stmts[0].body[1:])
         if any(isinstance(n, (ast.Yield, ast.YieldFrom, ast.Break, ast.Continue, ast.Return)) for x in stmts for n in ast.walk(x)):
             raise Unsupported(f"{spec.cls}.{spec.method}: yield / break / continue / return inside the sampled statements")
+    elif spec.select in ("before_loop", "loop"):
+        # `<initialisation>; while ..: ..; <rest>`: "before_loop" = the initialisation alone (the loop-carried locals are the
+        # state record: local_state), "loop" = ONE iteration of the while (and what follows it when it ends)
+        stmts = [x for x in stmts if not (isinstance(x, ast.Expr) and isinstance(x.value, ast.Constant))]
+        pos = [i for i, x in enumerate(stmts) if isinstance(x, ast.While)]
+        if len(pos) != 1:
+            raise Unsupported(f"{spec.cls}.{spec.method}: not exactly one top-level while")
+        stmts = stmts[:pos[0]] if spec.select == "before_loop" else stmts[pos[0]:]
     elif spec.select == "sample_loop_body":
         # `while True: yield <wait>; for x in <iterable>: <statements>`: the statements for ONE x (x is a listed observation;
         # the loop itself -- which x, in which order -- is not translated)
